@@ -198,73 +198,81 @@ theorem pushTop_same (s : Storage) (id : NodeId) : Same s (pushTop s id) ∧ (pu
   · exact ⟨⟨rfl, rfl, rfl, rfl, rfl⟩, rfl, rfl⟩
   · exact ⟨Same.refl s, rfl, rfl⟩
 
+/-- what `upToDate` (`bring_up_to_date`) does for a call that evaluates from scratch -/
+def CoreSim (P : Prog) (n : Nat) : Prop :=
+  ∀ (s : Storage) (id : NodeId) (v : Nat), Mid P s →
+    evalS n P s.srcs s.maps (stackIds s) id = .ok v →
+    ∃ s' b r, upToDate n P s id = (s', .ok b) ∧ Mid P s' ∧ Same s s' ∧ alookup s'.derived id = some r ∧ r.val = v
+
+theorem execSim_of_core {P : Prog} {n : Nat} (hc : CoreSim P n) : ExecSim P n := by
+  intro s id v hm hv
+  obtain ⟨hs0, hd0, _⟩ := pushTop_same s id
+  have hm0 : Mid P (pushTop s id) := hm.of_same hs0 hd0
+  have hv0 : evalS n P (pushTop s id).srcs (pushTop s id).maps (stackIds (pushTop s id)) id = .ok v := by
+    rw [hs0.srcs, hs0.maps, hs0.ids]; exact hv
+  obtain ⟨s', b, r, he, hm', hs', hl, hval⟩ := hc _ id v hm0 hv0
+  refine ⟨regDep s' (.derived id) b.2, b.1, r, ?_, hm'.regDep _ _, (hs0.trans hs').trans (regDep_same _ _ _),
+    by rw [regDep_derived]; exact hl, hval⟩
+  show execF (upToDate n P) s id = _
+  unfold execF
+  rw [he]
+
+theorem coreSim_succ {P : Prog} {n : Nat} (ih : ExecSim P n) : CoreSim P (n + 1) := by
+  intro s0 id v hm0 hv0
+  obtain ⟨Rv, hbig⟩ := bigN_of_evalS (n + 1) _ id v hv0
+  simp only [upToDate]
+  cases hl : alookup s0.derived id with
+  | some rev =>
+    simp only
+    obtain ⟨htv, R, hR⟩ := hm0 id rev hl
+    rw [if_pos htv]
+    exact ⟨_, (false, rev.tu), rev, rfl, hm0, Same.refl _, hl, (BigE.det hR hbig).1⟩
+  | none =>
+    simp only
+    simp only [evalS] at hv0
+    have hnc : (stackIds s0).contains id = false := by
+      cases hc : (stackIds s0).contains id with
+      | false => rfl
+      | true => rw [if_pos hc] at hv0; cases hv0
+    rw [if_neg (by rw [hnc]; simp)] at hv0
+    have hany : (s0.stack.any fun fr => decide (fr.id = id)) = false := by
+      rw [any_id_eq_contains]; exact hnc
+    have hm1' : Mid P { s0 with stack := ⟨id, [], 1⟩ :: s0.stack, runs := bump s0.runs id.fn, log := id :: s0.log, events := (false, id) :: s0.events } := by
+      intro n' r' hn'; exact hm0 n' r' hn'
+    obtain ⟨s2, he2, hm2, hs2⟩ := evalE_sim ih (fnOf P id.fn).body id.arg
+      { s0 with stack := ⟨id, [], 1⟩ :: s0.stack, runs := bump s0.runs id.fn, log := id :: s0.log, events := (false, id) :: s0.events } v hm1' hv0
+    have hids : stackIds s2 = id :: stackIds s0 := hs2.ids
+    cases hstk : s2.stack with
+    | nil => simp [stackIds, hstk] at hids
+    | cons fr rest =>
+      have hrest : rest.map (·.id) = stackIds s0 := by
+        simp only [stackIds, hstk, List.map_cons, List.cons.injEq] at hids; exact hids.2
+      have hinv : invoke (callVia (execF (upToDate n P))) P s0 id = ({ s2 with stack := rest, events := (true, id) :: s2.events }, .ok (v, fr)) := by
+        unfold invoke
+        simp only [hany, Bool.false_eq_true, if_false]
+        have he2' : evalE (callVia (execF (upToDate n P))) P (fnOf P id.fn).body id.arg
+            { s0 with stack := ⟨id, [], 1⟩ :: s0.stack, runs := bump s0.runs id.fn, log := id :: s0.log, events := (false, id) :: s0.events } = (s2, .ok v) := he2
+        simp only [he2', hstk]
+      simp only [hinv]
+      refine ⟨_, (true, fr.maxTu), Rev.mk v fr.maxTu s2.epoch fr.rdeps.reverse, rfl, ?_, ?_, ?_, rfl⟩
+      · intro n' r' hn'
+        simp only at hn'
+        by_cases hid : id = n'
+        · subst hid
+          rw [alookup_ainsert_self] at hn'; cases hn'
+          refine ⟨rfl, Rv, ?_⟩
+          show BigN P s2.srcs s2.maps id v Rv
+          rw [hs2.srcs, hs2.maps]; exact hbig
+        · rw [alookup_ainsert_ne _ _ _ _ hid] at hn'
+          exact hm2 n' r' hn'
+      · exact ⟨hs2.epoch, hs2.srcs, hs2.maps, by simp [stackIds, hrest], hs2.poisoned⟩
+      · exact alookup_ainsert_self _ _ _
+
 theorem execSim (P : Prog) : ∀ n, ExecSim P n := by
   intro n
   induction n with
   | zero => intro s id v _ h; simp [evalS] at h
-  | succ n ih =>
-    intro s id v hm hv
-    rw [exec_succ]
-    obtain ⟨hs0, hd0, hst0⟩ := pushTop_same s id
-    have hm0 : Mid P (pushTop s id) := hm.of_same hs0 hd0
-    have hv0 : evalS (n + 1) P (pushTop s id).srcs (pushTop s id).maps (stackIds (pushTop s id)) id = .ok v := by
-      rw [hs0.srcs, hs0.maps, hs0.ids]; exact hv
-    -- generalise the state after the push
-    suffices H : ∀ s0 : Storage, Mid P s0 → evalS (n + 1) P s0.srcs s0.maps (stackIds s0) id = .ok v →
-        ∃ s' b r, execBody n P s0 id = (s', .ok b) ∧ Mid P s' ∧ Same s0 s' ∧ alookup s'.derived id = some r ∧ r.val = v by
-      obtain ⟨s', b, r, he, hm', hs', hl, hval⟩ := H _ hm0 hv0
-      exact ⟨s', b, r, he, hm', hs0.trans hs', hl, hval⟩
-    intro s0 hm0 hv0
-    obtain ⟨Rv, hbig⟩ := bigN_of_evalS (n + 1) _ id v hv0
-    unfold execBody
-    cases hl : alookup s0.derived id with
-    | some rev =>
-      simp only
-      obtain ⟨htv, R, hR⟩ := hm0 id rev hl
-      rw [if_pos htv]
-      refine ⟨_, false, rev, rfl, hm0.regDep _ _, regDep_same _ _ _, by rw [regDep_derived]; exact hl, ?_⟩
-      exact (BigE.det hR hbig).1
-    | none =>
-      simp only
-      simp only [evalS] at hv0
-      have hnc : (stackIds s0).contains id = false := by
-        cases hc : (stackIds s0).contains id with
-        | false => rfl
-        | true => rw [if_pos hc] at hv0; cases hv0
-      rw [if_neg (by rw [hnc]; simp)] at hv0
-      -- the state in which the body runs
-      have hany : (s0.stack.any fun fr => decide (fr.id = id)) = false := by
-        rw [any_id_eq_contains]; exact hnc
-      have hm1' : Mid P { s0 with stack := ⟨id, [], 1⟩ :: s0.stack, runs := bump s0.runs id.fn, log := id :: s0.log, events := (false, id) :: s0.events } := by
-        intro n' r' hn'; exact hm0 n' r' hn'
-      obtain ⟨s2, he2, hm2, hs2⟩ := evalE_sim ih (fnOf P id.fn).body id.arg
-        { s0 with stack := ⟨id, [], 1⟩ :: s0.stack, runs := bump s0.runs id.fn, log := id :: s0.log, events := (false, id) :: s0.events } v hm1' hv0
-      have hids : stackIds s2 = id :: stackIds s0 := hs2.ids
-      cases hstk : s2.stack with
-      | nil => simp [stackIds, hstk] at hids
-      | cons fr rest =>
-        have hrest : rest.map (·.id) = stackIds s0 := by
-          simp only [stackIds, hstk, List.map_cons, List.cons.injEq] at hids; exact hids.2
-        have hinv : invoke (callVia (exec n P)) P s0 id = ({ s2 with stack := rest, events := (true, id) :: s2.events }, .ok (v, fr)) := by
-          unfold invoke
-          simp only [hany, Bool.false_eq_true, if_false, he2, hstk]
-        simp only [hinv]
-        refine ⟨_, true, Rev.mk v fr.maxTu s2.epoch fr.rdeps.reverse, rfl, ?_, ?_, ?_, rfl⟩
-        · apply Mid.regDep
-          intro n' r' hn'
-          simp only at hn'
-          by_cases hid : id = n'
-          · subst hid
-            rw [alookup_ainsert_self] at hn'; cases hn'
-            refine ⟨rfl, Rv, ?_⟩
-            show BigN P s2.srcs s2.maps id v Rv
-            rw [hs2.srcs, hs2.maps]; exact hbig
-          · rw [alookup_ainsert_ne _ _ _ _ hid] at hn'
-            exact hm2 n' r' hn'
-        · refine Same.trans ?_ (regDep_same _ _ _)
-          exact ⟨hs2.epoch, hs2.srcs, hs2.maps, by simp [stackIds, hrest], hs2.poisoned⟩
-        · rw [regDep_derived]; exact alookup_ainsert_self _ _ _
-
+  | succ n ih => exact execSim_of_core (coreSim_succ ih)
 
 /-! ## histories: writes first, then calls -/
 
